@@ -8,7 +8,9 @@ import (
 	"bytes"
 	"errors"
 	"fmt"
+	"io"
 	"math"
+	"os"
 	"reflect"
 	"runtime"
 	"sort"
@@ -211,5 +213,22 @@ func H_SELF_channels() {
 	verifObserve("sum", sum, ok, len(ch), cap(ch), runtime.GOMAXPROCS(0) >= 1)
 	verifAssert(sum == 10, "channel model: producer/consumer")
 	verifAssert(verifRaces() == 0, "channel operations order the accesses")
+	verifReach("end")
+}
+
+func H_SELF_files_and_q() {
+	s := hAscii(2)
+	verifObserve("q", fmt.Sprintf("%q:%s", s, s))
+	path := "/tmp/verif_self_file.txt"
+	verifSetFile(path, "ab"+s, true)
+	f, err := os.Open(path)
+	verifObserve("open", err == nil)
+	if err == nil {
+		data, rerr := io.ReadAll(f)
+		cerr := f.Close()
+		verifObserve("read", string(data), rerr == nil, cerr == nil, f.Close() == nil)
+	}
+	_, err2 := os.Open("/tmp/verif_self_missing.txt")
+	verifObserve("missing", err2 == nil)
 	verifReach("end")
 }
